@@ -8,11 +8,11 @@ to the linear search when the index has a null page). Values are ranks in a line
 namespace PqModel.Props.C06
 open PqModel.Search
 
-theorem binarySearch_first_no_null_pages {ix mn mx} (h : Ascending ix mn mx) (v : Int) :
-    binarySearch ix v ≤ ix.n ∧
-    (binarySearch ix v < ix.n → contains ix (binarySearch ix v) v = true) ∧
-    (∀ i, i < ix.n → contains ix i v = true → binarySearch ix v ≤ i) :=
-  binarySearch_first h v
+theorem binarySearch_first_no_null_pages (nf : Bool) {ix mn mx} (h : Ascending ix mn mx) (v : Int) :
+    binarySearch nf ix v ≤ ix.n ∧
+    (binarySearch nf ix v < ix.n → contains nf ix (binarySearch nf ix v) v = true) ∧
+    (∀ i, i < ix.n → contains nf ix i v = true → binarySearch nf ix v ≤ i) :=
+  binarySearch_first nf h v
 
 example : Ascending { mins := [some (-5), some 7], maxs := [some (-3), some 9] }
     (fun i => if i = 0 then -5 else 7) (fun i => if i = 0 then -3 else 9) where
@@ -27,50 +27,56 @@ example : Ascending { mins := [some (-5), some 7], maxs := [some (-3), some 9] }
 
 /-- `linearSearch` returns the first page whose bounds contain `v`, else `n` — for EVERY index: null
     pages anywhere (they contain nothing), any order, overlapping or duplicate bounds, ragged lists. -/
-theorem linear_correct (ix : Index) (v : Int) :
-    linearSearch ix v ≤ ix.n ∧
-    (linearSearch ix v < ix.n → contains ix (linearSearch ix v) v = true) ∧
-    (∀ i, i < ix.n → contains ix i v = true → linearSearch ix v ≤ i) :=
-  linearSearch_first ix v
+theorem linear_correct (nf : Bool) (ix : Index) (v : Int) :
+    linearSearch nf ix v ≤ ix.n ∧
+    (linearSearch nf ix v < ix.n → contains nf ix (linearSearch nf ix v) v = true) ∧
+    (∀ i, i < ix.n → contains nf ix i v = true → linearSearch nf ix v ≤ i) :=
+  linearSearch_first nf ix v
 
-example : linearSearch f1 8 = 2 := by decide
+example : linearSearch false f1 8 = 2 ∧ linearSearch true f1 8 = 2 := by decide
 
 /-- `find` (the repaired dispatch of `Find`) never misses, for every index and every flag, as long as the
     flag is truthful in the only case the dispatch relies on it: flagged ascending AND no null page ⇒
     the index is ascending. Result: `find ≤ p` for every page `p` whose bounds contain `v` (so it is
     the first such page), the returned page contains `v`, else `find = n`. -/
-theorem find_no_miss (asc : Bool) (ix : Index) (v : Int)
+theorem find_no_miss (nf asc : Bool) (ix : Index) (v : Int)
     (htruth : asc = true → hasNull ix = false → ∃ mn mx, Ascending ix mn mx) :
-    find asc ix v ≤ ix.n ∧
-    (find asc ix v < ix.n → contains ix (find asc ix v) v = true) ∧
-    (∀ p, p < ix.n → contains ix p v = true → find asc ix v ≤ p) := by
+    find nf asc ix v ≤ ix.n ∧
+    (find nf asc ix v < ix.n → contains nf ix (find nf asc ix v) v = true) ∧
+    (∀ p, p < ix.n → contains nf ix p v = true → find nf asc ix v ≤ p) := by
   unfold find
   by_cases hc : (asc && !hasNull ix) = true
   · rw [if_pos hc]
     simp only [Bool.and_eq_true, Bool.not_eq_true'] at hc
     obtain ⟨mn, mx, ha⟩ := htruth hc.1 hc.2
-    exact binarySearch_first ha v
+    exact binarySearch_first nf ha v
   · rw [if_neg hc]
-    exact linearSearch_first ix v
+    exact linearSearch_first nf ix v
 
 -- the premise holds trivially for the F1 index (it has a null page): the dispatch goes linear
-example : find true f1 8 = 2 := by decide
+example : find false true f1 8 = 2 ∧ find true true f1 8 = 2 := by decide
 
 /-- The flag is truthful for every index the WRITER builds: `asc` is "the indexer computed ASCENDING"
     (`writerOrder z ix = 1`, null pages stored as the zero value `z`), bounds lists have equal length and
     every non-null page has `min ≤ max`. No hypothesis on null pages, truncation or duplicates. -/
-theorem find_no_miss_writer (z : Int) (ix : Index) (v : Int)
+theorem find_no_miss_writer (nf : Bool) (z : Int) (ix : Index) (v : Int)
     (hlen : ix.maxs.length = ix.mins.length)
     (hle : ∀ i a b, i < ix.n → minAt ix i = some a → maxAt ix i = some b → a ≤ b) :
-    let r := find (writerOrder z ix == 1) ix v
-    r ≤ ix.n ∧ (r < ix.n → contains ix r v = true) ∧ (∀ p, p < ix.n → contains ix p v = true → r ≤ p) := by
+    let r := find nf (writerOrder z ix == 1) ix v
+    r ≤ ix.n ∧ (r < ix.n → contains nf ix r v = true) ∧ (∀ p, p < ix.n → contains nf ix p v = true → r ≤ p) := by
   apply find_no_miss
   intro hasc hnn
   exact writerOrder_ascending z ix hlen (by simpa using hasc) hnn hle
 
-example : writerOrder 0 f1 = 1 ∧ find (writerOrder 0 f1 == 1) f1 8 = 2 := by decide
+example : writerOrder 0 f1 = 1 ∧ find false (writerOrder 0 f1 == 1) f1 8 = 2 := by decide
 
 /-- the dispatch before the repair (binary search whenever flagged ascending) misses: F1 -/
-theorem findUnguarded_misses : contains f1 2 8 = true ∧ findUnguarded true f1 8 = 3 := by decide
+theorem findUnguarded_misses : contains false f1 2 8 = true ∧ findUnguarded false true f1 8 = 3 := by decide
+
+/-- the index the writer emits for an optional INT32 column sorted descending with nulls first and all values
+    negative: a null page, then (-1,-2), (-3,-5); flagged DESCENDING (null pages are stored as 0). `find` with
+    the nulls-first ordering finds -4 in page 2: the linear search may not stop at the null page. -/
+example : writerOrder 0 { mins := [none, some (-2), some (-5)], maxs := [none, some (-1), some (-3)] } = 2 ∧
+    find true false { mins := [none, some (-2), some (-5)], maxs := [none, some (-1), some (-3)] } (-4) = 2 := by decide
 
 end PqModel.Props.C06
